@@ -212,6 +212,16 @@ func genC10Case(rt *rapid.T) (valCase, bool) {
 		return valCase{}, false
 	}
 	c := g.Case
+	if g.Typed != nil && rapid.IntRange(0, 2).Draw(rt, "samefault") == 0 {
+		// the same fault several more times, at other sites: several errors of one rule in one
+		// document, whose relative order must be reproducible
+		idx := rapid.IntRange(0, gen.NumDocFaults()-1).Draw(rt, "which")
+		for i, n := 0, rapid.IntRange(2, 4).Draw(rt, "times"); i < n; i++ {
+			gen.ApplyDocFault(rt, g.Typed, g.Schema, idx)
+		}
+		c.Query = gen.JoinPlain(gen.QueryLexemes(g.Typed.Doc, gen.Canon))
+		c.Class = "same-fault-repeated"
+	}
 	if g.Typed != nil && rapid.Bool().Draw(rt, "misspell") {
 		lex := gen.QueryLexemes(g.Typed.Doc, gen.Canon)
 		for k := rapid.IntRange(1, 2).Draw(rt, "nmiss"); k > 0; k-- {
